@@ -20,7 +20,7 @@ from fsmc.design import MachineryError
 from checks import c10_ref as ref
 
 ADRW, IDW = 32, 2
-NB = 32                     # bytes of environment memory (addresses 0 .. NB-1)
+NWORDS = 8                  # the environment memory has 8 bus words (addresses 0 .. 8*bus bytes - 1)
 WID, RID = 1, 2             # ids of the write / read burst of the AXI master
 OKAY, SLVERR = 0, 2
 AXF = ("addr", "len", "size", "burst", "id")
@@ -76,6 +76,7 @@ class Plan:
     def __init__(self, H, scn):
         order = scn[0]
         nl = H.nl
+        NB = H.NB
         mem0 = [init_byte(a) for a in range(NB)]
         self.E = []
         if H.mk == "axi":
@@ -148,6 +149,7 @@ class FullBridgeHarness(Harness):
         self.name, self.kind, self.dw = name, kind, dw
         self.nl = dw // 8
         self.full = self.nl.bit_length() - 1
+        self.NB = NWORDS * self.nl
         self.pipelined, self.w_before_aw, self.err, self.maxlat = pipelined, w_before_aw, err, maxlat
         self.Q = 3 if (pipelined or w_before_aw) else 1
         self.group = []
@@ -176,7 +178,7 @@ class FullBridgeHarness(Harness):
         return p
 
     def env_init(self):
-        return (None, None, None, tuple(init_byte(a) for a in range(NB)), None)
+        return (None, None, None, tuple(init_byte(a) for a in range(self.NB)), None)
 
     def ms0(self, scn):
         hw, hr = "w" in scn[0], "r" in scn[0]
@@ -308,7 +310,7 @@ class FullBridgeHarness(Harness):
     # ---- inputs -----------------------------------------------------------------------------------------------
     def mread(self, mem, word):
         base = word * self.nl
-        return sum((mem[base + l] if base + l < NB else 0xEE) << (8 * l) for l in range(self.nl))
+        return sum((mem[base + l] if base + l < self.NB else 0xEE) << (8 * l) for l in range(self.nl))
 
     def s_rbeat(self, SS, mem):
         """(data, last, id) of the read beat the AXI slave presents now"""
@@ -489,8 +491,8 @@ class FullBridgeHarness(Harness):
             SS2 = (0, None, werr, rerr)
             if vis:
                 req = (v[S["adr"]], v[S["we"]], v[S["sel"]], v[S["dat_w"]] if v[S["we"]] else 0)
-                if (req[0] + 1) * self.nl > NB:
-                    return env, ("addr.range", f"{nm}: wishbone address {req[0]:#x} outside the {NB}-byte memory"), 0
+                if (req[0] + 1) * self.nl > self.NB:
+                    return env, ("addr.range", f"{nm}: wishbone address {req[0]:#x} outside the {self.NB}-byte memory"), 0
                 if last is not None and req != last:
                     return env, ("proto.wb_unstable", f"{nm}: wishbone request changed while waiting for ack: {last} -> {req}"), 0
                 if sc[0] == "a":
@@ -524,15 +526,15 @@ class FullBridgeHarness(Harness):
                 awq, wq, bq, b_up, arq, rcur, werr, rerr = SS
                 if hs("aw"):
                     a = v[S["aw"]["addr"]]
-                    if a >= NB:
-                        return env, ("addr.range", f"{nm}: slave-side AW address {a:#x} outside the {NB}-byte memory"), 0
+                    if a >= self.NB:
+                        return env, ("addr.range", f"{nm}: slave-side AW address {a:#x} outside the {self.NB}-byte memory"), 0
                     awq, prog = awq + (a,), True
                 if hs("w"):
                     wq, prog = wq + ((v[S["w"]["data"]], v[S["w"]["strb"]]),), True
                 if hs("ar"):
                     a = v[S["ar"]["addr"]]
-                    if a >= NB:
-                        return env, ("addr.range", f"{nm}: slave-side AR address {a:#x} outside the {NB}-byte memory"), 0
+                    if a >= self.NB:
+                        return env, ("addr.range", f"{nm}: slave-side AR address {a:#x} outside the {self.NB}-byte memory"), 0
                     arq, prog = arq + (a,), True
                 cov["max_queue"] = max(cov["max_queue"], len(awq), len(wq), len(arq))
                 # responses
@@ -591,8 +593,8 @@ class FullBridgeHarness(Harness):
                         return env, ("proto.w_without_aw", f"{nm}: environment slave accepted W without AW (harness error)"), 0
                     data, strb, last = v[S["w"]["data"]], v[S["w"]["strb"]], v[S["w"]["last"]]
                     adr, lo, up = ref.byte_lanes(aw[0], aw[1], aw[2], aw[3], wn + 1, self.nl)
-                    if (adr // self.nl + 1) * self.nl > NB:
-                        return env, ("addr.range", f"{nm}: slave-side write beat at {adr:#x} outside the {NB}-byte memory"), 0
+                    if (adr // self.nl + 1) * self.nl > self.NB:
+                        return env, ("addr.range", f"{nm}: slave-side write beat at {adr:#x} outside the {self.NB}-byte memory"), 0
                     for l in range(self.nl):
                         if (strb >> l) & 1 and not lo <= l <= up:
                             return env, ("w.strb.lane", f"{nm}: slave-side W beat {wn+1} strobes lane {l} outside its byte lanes {lo}..{up}"), 0
@@ -616,8 +618,8 @@ class FullBridgeHarness(Harness):
                     if why:
                         return env, ("ax.illegal", f"{nm}: slave-side AR {ar} is not a legal AXI burst: {why}"), 0
                     adr = ref.byte_lanes(ar[0], ar[1], ar[2], ar[3], ar[1] + 1, self.nl)[0]
-                    if max(ar[0], adr) // self.nl * self.nl + self.nl > NB:
-                        return env, ("addr.range", f"{nm}: slave-side read burst {ar} leaves the {NB}-byte memory"), 0
+                    if max(ar[0], adr) // self.nl * self.nl + self.nl > self.NB:
+                        return env, ("addr.range", f"{nm}: slave-side read burst {ar} leaves the {self.NB}-byte memory"), 0
                     rn, prog = 0, True
                 if b_v:
                     if v[S["b"]["ready"]]:
@@ -792,7 +794,7 @@ class FullBridgeHarness(Harness):
                     what = "write" if (werr and not m_we) else "read"
                     return env, ("resp.err_dropped", f"{nm}: the slave answered a {what} access of the burst with SLVERR/err, the master only saw OKAY"), 0
             elif "w" in scn[0] and mem2 != P.final:
-                diff = [a for a in range(NB) if mem2[a] != P.final[a]]
+                diff = [a for a in range(self.NB) if mem2[a] != P.final[a]]
                 lost = all(mem2[a] == init_byte(a) for a in diff)
                 left = ""
                 if self.sk == "axil" and (SS2[0] or SS2[1]):
